@@ -470,6 +470,7 @@ fn stage2(seed: u64, job: usize, tier: Tier) -> Outcome {
     let replay = json!({"how": format!("vcheck C04 --seed {seed} --only t{job}"), "scenario": format!("t{job}"), "cell": site});
     let injected = Arc::new(std::sync::atomic::AtomicU64::new(0));
     let inj2 = injected.clone();
+    let fields_only = (job / cells.len()) % 2 == 1;
     let res = guarded(|| {
         let world = World::new(wcfg.clone());
         let tc = tcfg.clone();
@@ -479,17 +480,44 @@ fn stage2(seed: u64, job: usize, tier: Tier) -> Outcome {
             // mutate the quotation of the genuine probe: the sequence and identity stay plausible
             let mut out = Vec::new();
             let mut pool = Vec::new();
-            random_datagrams(&cfg, r, 3, &mut pool);
+            // (a datagram the parsers reject ends the run with an error value, which is allowed; so
+            // that the state machine is also exercised for whole runs, every other job sends only
+            // quotations that are intact except for one field)
+            if !fields_only {
+                random_datagrams(&cfg, r, 3, &mut pool);
+            }
             for (_, d) in pool {
                 out.push(forge::injected(r.range(1_000, 20_000_000), v6, d, src, PktClass::Noise));
             }
             // the real probe quoted with one field destroyed
             let mut transit = wp.bytes.clone();
-            if !transit.is_empty() {
+            if !transit.is_empty() && !fields_only {
                 let i = r.below(transit.len() as u64) as usize;
                 transit[i] = r.below(256) as u8;
                 let q = forge::truncate_quote(&transit, v6);
                 let (bytes, s) = forge::icmp_error(v6, src, scen::HOST_V4, scen::host_v6(), r.chance(1, 2), &q[..r.range(0, q.len() as u64) as usize], 0);
+                out.push(forge::injected(r.range(1_000, 5_000_000), v6, bytes, s, PktClass::Noise));
+            }
+            // the real probe quoted in full with one 16 bit field set to a boundary value (length,
+            // checksum, identification, port ... whatever lives there): everything else still
+            // identifies the probe, so the datagram gets as far into the receive path as possible
+            let mut transit = wp.bytes.clone();
+            if transit.len() >= 2 {
+                let i = 2 * r.below((transit.len().min(64) / 2) as u64) as usize;
+                let v = match r.below(10) {
+                    0 => 0u16,
+                    1 => 1,
+                    2 => 7,
+                    3 => 8,
+                    4 => 0x7fff,
+                    5 => 0x8000,
+                    6 => 0xfffe,
+                    7 => 0xffff,
+                    _ => r.below(65_536) as u16,
+                };
+                transit[i..i + 2].copy_from_slice(&v.to_be_bytes());
+                let q = forge::truncate_quote(&transit, v6);
+                let (bytes, s) = forge::icmp_error(v6, src, scen::HOST_V4, scen::host_v6(), r.chance(1, 2), &q, 0);
                 out.push(forge::injected(r.range(1_000, 5_000_000), v6, bytes, s, PktClass::Noise));
             }
             let _ = &tc;
@@ -504,7 +532,9 @@ fn stage2(seed: u64, job: usize, tier: Tier) -> Outcome {
         Ok(Ok(run)) => {
             o.count("tracer_runs_ok", u64::from(run.result.is_ok()));
             o.count("tracer_runs_ended_with_error_value", u64::from(run.result.is_err()));
-            o.nontrivial = Some(format!("{site}#stage2#{}", run.result.is_ok()));
+            o.count(if fields_only { "tracer_runs_with_field_mutations_only" } else { "tracer_runs_with_all_mutations" }, 1);
+            o.count("rounds_published_by_running_tracers", run.rounds.len() as u64);
+            o.nontrivial = Some(format!("{site}#stage2#{}#{fields_only}", run.result.is_ok()));
         }
         Ok(Err(e)) => o.harness_error = Some(e),
         Err(p) if p.in_repo() => o.violate("no_panic", format!("{site}|{}", p.site()), format!("[tracer] panic at {}:{}: {}", p.file, p.line, p.message), replay),
@@ -686,7 +716,7 @@ fn stage3(seed: u64, job: usize, tier: Tier) -> Outcome {
 
 pub fn run(tier: Tier, seed: u64, only: Option<String>) -> i32 {
     let mut rep = Report::new("C04", "exploration", tier, seed);
-    rep.rule = "stage 1: for each of 12 protocol x family x extension-mode configurations a real Channel over the simulated socket is fed one datagram at a time through Network::recv_probe: systematic sweeps (truncation at every length, RFC 4884 length byte 0..255, outer and nested IHL 0..15, nested total / payload length, nested protocol, UDP length 0..2047 + boundaries, magic prefix with short lengths, extension object length 0..1100 + boundaries, extension version, MPLS depth 0..16 truncated at every octet, ICMP type 0..255) plus random bit / byte / splice / boundary-value mutations of valid responses and fully random bytes; stage 2: a running tracer (every cell) receives mutated copies of its own probes' quotations and noise between genuine responses; stage 3: every public accessor, payload()/extension()/options, iterator (capped at len/4+2 items) and Debug impl of all 19 packet views over fills, every first-byte value at every length 0..80, 16 bit length fields 0..300 and mutated datagrams; outcome Err(..) is acceptable, a panic (incl. arithmetic overflow in this profile) is not; distinct by (configuration, stage, shard)".into();
+    rep.rule = "stage 1: for each of 12 protocol x family x extension-mode configurations a real Channel over the simulated socket is fed one datagram at a time through Network::recv_probe: systematic sweeps (truncation at every length, RFC 4884 length byte 0..255, outer and nested IHL 0..15, nested total / payload length, nested protocol, UDP length 0..2047 + boundaries, magic prefix with short lengths, extension object length 0..1100 + boundaries, extension version, MPLS depth 0..16 truncated at every octet, ICMP type 0..255) plus random bit / byte / splice / boundary-value mutations of valid responses and fully random bytes; stage 2: a running tracer (every cell) receives mutated copies of its own probes' quotations (one octet destroyed + random truncation; one 16 bit field set to a boundary value in an otherwise intact full quotation) and noise between genuine responses; stage 3: every public accessor, payload()/extension()/options, iterator (capped at len/4+2 items) and Debug impl of all 19 packet views over fills, every first-byte value at every length 0..80, 16 bit length fields 0..300 and mutated datagrams; outcome Err(..) is acceptable, a panic (incl. arithmetic overflow in this profile) is not; distinct by (configuration, stage, shard)".into();
     rep.assumptions = vec![
         "the strict profile (debug assertions and overflow checks on) is the primary run; ./check thorough repeats in the shipped profile".into(),
         "stage 1 builds its channel with privileged mode; the receive path does not depend on the privilege mode".into(),
@@ -695,7 +725,7 @@ pub fn run(tier: Tier, seed: u64, only: Option<String>) -> i32 {
     let cfgs = configs();
     let shards = tier.pick(3, 8);
     let n1 = cfgs.len() * shards;
-    let n2 = tier.pick(128, 2_000);
+    let n2 = tier.pick(2 * scen::all_cells(false).len(), 2_000);
     let n3 = tier.pick(16, 64);
     match only {
         Some(s) if s.starts_with('t') => rep.merge(stage2(seed, s[1..].parse().unwrap_or(0), tier)),
